@@ -681,6 +681,7 @@ def _tables_and_rules(run, R, prefixes):
         else:
             s = ''.join(run.rng.choice('abct._') for _ in range(run.rng.randrange(0, 8)))
         names.add(s)
+    names |= set(p + '.c13x' for p in prefixes)
     names = sorted(names)
     run.cov['rule_names'] = len(names)
     impl = {}
@@ -701,6 +702,14 @@ def _tables_and_rules(run, R, prefixes):
         if doc != act:
             run.fail('rule table: action of module %r is %s, documented first-match semantics gives %s' % (n, act, doc), {'module': n})
     run.cov['rules_hit'] = '%d/%d' % (len(hits), len(prefixes))
+    # every rule decides its own package (a rule placed behind a broader rule with the opposite action is dead)
+    for i, rule in enumerate(config.CONVERSION_RULES):
+        own = {'Convert': 'convert', 'DoNotConvert': 'doNotConvert'}.get(type(rule).__name__)
+        for n in (rule._prefix, rule._prefix + '.c13x'):
+            run.case(('rule-effective', n), True)
+            if impl.get(n, own) != own:
+                run.fail('rule table: %s(%r) is shadowed by an earlier rule: module %r gets %s' % (type(rule).__name__, rule._prefix, n, impl[n]),
+                         {'module': n, 'rule_index': i})
     if run.driver_ok:
         t = parse_sexp(run.drive(['c13.tables'])[0])
         tab = {x[0]: x[1:] for x in t}
@@ -734,6 +743,8 @@ def _predicates(run, R, bases):
         R.ins.reset(False)
         b = zoo.build(base, R.env, [])
         f, F = b.f, b.facts
+        if b.prebuilt_partial:
+            f = real_levels(f)[1]      # the facts describe the callable under the recipe's own partial
         # harness self-test against the stdlib (a wrong recipe is an infrastructure error, not a finding)
         kind = 'method' if inspect.ismethod(f) else ('function' if inspect.isfunction(f) else 'callableObject')
         if kind != F['kind'] and F['builtin'] == 'notBuiltin':
@@ -827,8 +838,6 @@ def gen_cases(run, R, bases, rule_bases):
     for base in loggable:
         for chain_ix in range(nchains):
             for shape_ix in range(len(STD_SHAPES)):
-                if quick and (hash((base, chain_ix, shape_ix)) + off) % 1 != 0:
-                    continue
                 ur = bool((chain_ix + shape_ix) % 2)
                 add(Case(base, chain_ix, shape_ix, ur, True, True, statuses[(chain_ix + shape_ix + off) % 2], False))
     # --- foreign signatures: every declared shape
@@ -1033,7 +1042,42 @@ def _run_cases(run, R, cases):
         for seg in pk.split(' > '):
             checks_hit.add(seg.split(':')[-1])
     run.cov['chain_checks_hit'] = sorted(checks_hit)
+    # which rows of the decision tables were exercised (facts of the recipes that ran)
+    rows = {'unsupported': set(), 'allow': set(), 'builtin': set(), 'kinds': set(), 'fail': set(), 'descs': set()}
+    for (c, obs, b), req in zip(records, reqs):
+        F = b.facts
+        for k in ('wrapt', 'lru', 'ctor', 'known', 'tf'):
+            if F[k]:
+                rows['unsupported'].add(k)
+        rows['builtin'].add(F['builtin'])
+        rows['kinds'].add(F['kind'])
+        e = F['ent']
+        if e != 'opaque':
+            if e[1] != 'none' and R.rule_action('.'.join(e[1])):
+                rows['allow'].add('moduleRules:' + R.rule_action('.'.join(e[1])))
+            if e[2]:
+                rows['allow'].add('generator')
+            if e[11] != 'opaque' and R.ent_allowlisted(e[11]):
+                rows['allow'].add('callOverride')
+            if e[6] and e[8]:
+                rows['allow'].add('methodOwner:TestCase')
+            if e[6] and e[12] != 'opaque' and R.ent_allowlisted(e[12], False, True):
+                rows['allow'].add('methodOwner:definingClass')
+            if e[9]:
+                rows['allow'].add('namedtuple' + (':subclass' if e[10] else ''))
+        fault = R.faults[c.fault_ix] if c.fault_ix is not None else None
+        if fault is not None:
+            rows['fail'].add(fault[1])
+        elif F['fail'] is not None:
+            rows['fail'].add('natural:' + F['fail'][0])
+        rows['descs'].add(req.split(' ', 1)[1])
+    run.cov['decision_rows_exercised'] = {k: sorted(v) for k, v in rows.items() if k != 'descs'}
+    run.cov['distinct_model_inputs'] = len(rows['descs'])
+    run.cov['fault_points'] = len(R.faults)
     run.cov['exhaustive'] = False
+    run.cov['grids_complete'] = {'recipes x (user_requested, internal_convert_user_code) x context status': True,
+                                 'python targets x wrapper chains x argument shapes': True,
+                                 'convertible targets x fault points x strict': run.tier == 'thorough'}
     run.cov['exhaustive_note'] = ('every recipe x every (user_requested, internal_convert_user_code) x every context status is run; '
                                   'every python target x every wrapper chain x every argument shape is run; fault points x convertible targets '
                                   'are complete on the thorough tier and stride-sampled (seed-dependent) on the quick tier')
